@@ -39,11 +39,18 @@ class X:
     x = 1
 class BX(B):
     x = 2
+class AM(A, metaclass=M): pass
+A.__rank__ = 1
+D.__rank__ = None
+import typing
+L = typing.List[int]
 '''
 _ns = {}
 exec(SRC_CLASSES, _ns)
-CLS = {k: _ns[k] for k in "A B C D E X BX M".split()}
-RESOLVE_TARGETS = ["A", "B", "C", "D", "E", "X", "BX"]
+CLS = {k: _ns[k] for k in "A B C D E X BX M AM L".split()}
+# AM: a subclass of A that also has the metaclass M (criteria are a conjunction); L: typing.List[int], not a class --
+# issubclass() raises TypeError for it, which the registry documents as "this registration does not match"
+RESOLVE_TARGETS = ["A", "B", "C", "D", "E", "X", "BX", "AM", "L"]
 
 # registration menu: (classes, allow_subclasses, priority, attr, metaclass, detector-name)
 FULL_MENU = []
@@ -72,8 +79,13 @@ QUICK_MENU = [
     ((), True, 1, None, "M", None),
     (("B",), True, 0, "x", None, None),
     ((), True, 0, None, None, "det_CD"),
+    (("A",), True, 0, None, "M", None),          # classes and metaclass together
+    ((), True, 0, None, None, "det_rank"),        # a detector that raises TypeError for D
+    ((), True, 0, "__origin__", None, None),      # matches only the non-class target L
 ]
 MID_MENU = QUICK_MENU + [
+    (("A",), True, 1, None, "M", None),
+    ((), True, 1, None, None, "det_rank"),
     (("A",), False, 0, None, None, None),
     (("A",), True, 2, None, None, None),
     (("B",), True, 1, None, None, None),
@@ -89,10 +101,24 @@ def det_CD(c):
     return c.__name__ in ("C", "D")
 
 
+def det_rank(c):
+    return getattr(c, "__rank__", 0) > 0        # None > 0 raises TypeError (class D)
+
+
+DETECTORS = {"det_CD": det_CD, "det_rank": det_rank}
+
+
 def entry_matches(entry, cls):
+    try:
+        return _entry_matches(entry, cls)
+    except (TypeError, ValueError):
+        return False        # documented in TypeRegistry.resolve: a detector that raises does not match
+
+
+def _entry_matches(entry, cls):
     classes, allow, prio, attr, meta, det = entry
     if det:
-        return det_CD(cls)
+        return DETECTORS[det](cls)
     if classes:
         cs = tuple(CLS[c] for c in classes)
         if allow:
@@ -130,18 +156,18 @@ def shards(tier):
     out = []
     if tier == "quick":
         menu, depth = "quick", 4
-        for first in range(len(QUICK_MENU) + len(RESOLVE_TARGETS)):
+        for first in range(len(op_list(QUICK_MENU, "fresh"))):
             out.append(("fresh", menu, depth, (first,)))
-        for first in range(len(QUICK_MENU) + len(RESOLVE_TARGETS)):
+        for first in range(len(op_list(QUICK_MENU, "real"))):
             out.append(("real", menu, 3, (first,)))
     else:
-        n = len(MID_MENU) + len(RESOLVE_TARGETS)
+        n = len(op_list(MID_MENU, "fresh"))
         for a in range(n):
             for b in range(n):
                 out.append(("fresh", "mid", 5, (a, b)))
-        for a in range(len(FULL_MENU) + len(RESOLVE_TARGETS)):
+        for a in range(len(op_list(FULL_MENU, "fresh"))):
             out.append(("fresh", "full", 3, (a,)))
-        for a in range(n):
+        for a in range(len(op_list(MID_MENU, "real"))):
             out.append(("real", "mid", 4, (a,)))
     return out
 
@@ -149,8 +175,12 @@ def shards(tier):
 MENUS = {"quick": QUICK_MENU, "mid": MID_MENU, "full": FULL_MENU}
 
 
-def op_list(menu):
-    return [("reg", e) for e in menu] + [("res", t) for t in RESOLVE_TARGETS]
+def op_list(menu, sysname="fresh"):
+    # the non-class target L is only resolved on the fresh registry (the process-wide one has its own registrations
+    # for generic aliases, which the model does not know)
+    targets = [t for t in RESOLVE_TARGETS if not (sysname == "real" and t == "L")]
+    menu = [e for e in menu if not (sysname == "real" and e[3] == "__origin__")]
+    return [("reg", e) for e in menu] + [("res", t) for t in targets]
 
 
 # ------------------------------------------------------------------ systems under test
@@ -175,7 +205,7 @@ class FreshSystem:
         if meta:
             kw["metaclass"] = CLS[meta]
         if det:
-            kw["detector"] = det_CD
+            kw["detector"] = DETECTORS[det]
         self.reg.register(*[CLS[c] for c in classes], **kw)(f)
         self.funcs.append(f)
 
@@ -213,7 +243,7 @@ class RealSystem:
         if meta:
             kw["metaclass"] = CLS[meta]
         if det:
-            kw["detector"] = det_CD
+            kw["detector"] = DETECTORS[det]
         utype.register_transformer(*[CLS[c] for c in classes], **kw)(f)
 
     def resolve(self, tname):
@@ -255,7 +285,8 @@ def make_script(sysname, ops):
     lines = ["import sys, warnings; warnings.simplefilter('ignore')",
              "sys.path.insert(0, %r)" % __import__("os").environ.get("UTYPE_SRC", "/repo"),
              "import utype", "from utype.utils.base import TypeRegistry",
-             SRC_CLASSES, "def det_CD(c): return c.__name__ in ('C','D')"]
+             SRC_CLASSES, "def det_CD(c): return c.__name__ in ('C','D')",
+             "def det_rank(c): return getattr(c, '__rank__', 0) > 0"]
     if sysname == "fresh":
         lines.append("reg = TypeRegistry('verif', cache=True)")
         lines.append("def resolve(t):\n    f = reg.resolve(t)\n    return None if f is None else f.idx")
@@ -276,7 +307,7 @@ def make_script(sysname, ops):
             if meta:
                 kws.append(f"metaclass={meta}")
             if det:
-                kws.append("detector=det_CD")
+                kws.append(f"detector={det}")
             args = ", ".join(list(classes) + kws)
             lines.append(f"reg.register({args})(mk({n}))   # registration #{n}")
             regs.append((n, arg))
@@ -307,7 +338,7 @@ def fmt_ops(ops):
 def run_shard(shard, tier):
     sysname, menuname, depth, prefix = shard
     system_cls = FreshSystem if sysname == "fresh" else RealSystem
-    ops_all = op_list(MENUS[menuname])
+    ops_all = op_list(MENUS[menuname], sysname)
     acc = Acc()
     seen = {}   # state -> largest remaining depth it was expanded with
 
